@@ -90,12 +90,30 @@ def flip_all(a):
     a[...] = a[tuple(slice(None, None, -1) for _ in a.shape)].copy()
 
 
+def _result_arrays(r, depth=0):
+    if isinstance(r, numpy.ndarray):
+        return [r]
+    if isinstance(r, (tuple, list)) and depth < 4:
+        out = []
+        for x in r:
+            out.extend(_result_arrays(x, depth + 1))
+        return out
+    if isinstance(r, dict) and depth < 4:
+        out = []
+        for x in r.values():
+            out.extend(_result_arrays(x, depth + 1))
+        return out
+    return []
+
+
 def check_reuse(o, clause, f, x, tol, sub="", mutate=flip_all):
     """Call history on ONE array object owned by the caller:  f(a);  f(a) again;  the caller edits a in place;
     f(a) once more.  Clauses (each compared with what a pristine copy of the current values gives):
       <clause>_argument_unchanged     the library call leaves a as it was
       <clause>_repeat_on_same_array   the second call on the same object gives the result for its current values
       <clause>_after_caller_edit      after the caller's in-place edit the result is that of the edited values
+      <clause>_held_result_not_overwritten            the first result is untouched by the second call
+      <clause>_result_not_shared_with_library_state   the caller overwrites the first result; the next call is unaffected
     (a result remembered by object identity, or an argument normalised in place, shows here and nowhere else).
     Returns the number of library calls."""
     a = numpy.array(x)
@@ -114,20 +132,38 @@ def check_reuse(o, clause, f, x, tol, sub="", mutate=flip_all):
     calls = 0
     try:
         # the history first, uninterrupted (a reference call in between would itself be part of the history) ...
-        f(a)
+        raw1 = f(a)
+        first = _flat(raw1).copy()
         same = bool(numpy.array_equal(a, keep, equal_nan=True)) if a.dtype.kind in "fc" else bool(numpy.array_equal(a, keep))
         change = None if same else float(numpy.max(numpy.abs(a.astype(complex) - keep.astype(complex))))
         before = a.copy()
-        r2 = _flat(f(a))
+        raw2 = f(a)
+        r2 = _flat(raw2).copy()
+        # the first result, still held by the caller, is what it was; the caller then overwrites it (it owns it) and
+        # the next call on the same values is unaffected (no result array is shared with state kept by the library)
+        held_ok = rel(_flat(raw1), first)
+        scribbled = 0
+        if same:
+            for arr in _result_arrays(raw1):
+                if arr.flags.writeable and arr.size and not numpy.may_share_memory(arr, a):
+                    arr[...] = 77 if arr.dtype.kind in "iub" else numpy.nan
+                    scribbled += 1
+            r2b = _flat(f(a)) if scribbled else r2
+            calls += 1 if scribbled else 0
         mutate(a)
         after = a.copy()
         r3 = _flat(f(a))
+        # ... and a result obtained BEFORE the edit is not touched by the call made after it (different values now)
+        held_ok = max(held_ok, rel(_flat(raw2), r2))
         # ... then what pristine copies of the values held at each point give
         want2 = _flat(f(before))
         want3 = _flat(f(after))
         calls += 5
         o.check(clause + "_argument_unchanged", same, sub=sub, detail=None if same else "max change %g" % change)
         o.close(clause + "_repeat_on_same_array", rel(r2, want2), tol, sub=sub)
+        o.close(clause + "_held_result_not_overwritten", held_ok, 0.0, sub=sub)
+        if same and scribbled:
+            o.close(clause + "_result_not_shared_with_library_state", rel(r2b, want2), tol, sub=sub)
         o.close(clause + "_after_caller_edit", rel(r3, want3), tol, sub=sub)
     except Exception as e:          # the unchanged library does not raise on these inputs (they are inputs of the check)
         o.check(clause + "_repeat_on_same_array", False, sub=sub, detail="%s: %s" % (type(e).__name__, str(e)[:200]))
